@@ -1122,6 +1122,12 @@ def _dict_method(ip, recv, c, name, args, kw):
 
 def _set_method(ip, recv, c, name, args, kw):
     M = _M()
+    if 'elems' in c:
+        if name == 'add':
+            e_ = c['elems']
+            c['elems'] = SV(simp(z3.Concat(e_.e, z3.Unit(lift(args[0], e_.kind[1]).e))), e_.kind)
+            return None
+        raise Unsupported("set.%s on an abstract set" % name)
     if name == 'add':
         r = M.contains(ip, tuple(c['items']), args[0]) if c['items'] else False
         if isinstance(r, bool):
@@ -1152,6 +1158,18 @@ def _sv_method(ip, s, name, args, kw):
     """methods of symbolic bytes / str values"""
     M = _M()
     st = ip.st
+    if name == 'count' and isinstance(s.kind, tuple) and s.kind[0] == 'seq':
+        # sequence.count(x) on a sequence of records: objects without __eq__ compare by identity, the engine's records by
+        # value, so the real count is at most the number of value-equal elements (spec seq_count_<Record>) -- an
+        # over-approximation that keeps every real behaviour
+        sp_ = ip.reg.get_spec('seq_count_' + kind_name(s.kind[1]), optional=True)
+        if sp_ is None or ip.st.merge:
+            raise Unsupported("count on symbolic sequence")
+        from .modular import call_spec
+        upper = call_spec(ip, sp_, [s, SV(simp(z3.Length(s.e)), 'int'), args[0]], {})
+        c_ = fresh('count', 'int')
+        ip.st.assume(z3.And(c_.e >= 0, c_.e <= lift(upper, 'int').e))
+        return c_
     if s.kind not in ('bytes', 'str'):
         raise Unsupported("method %s on %s" % (name, kind_name(s.kind)))
     if name in ('startswith', 'endswith'):
@@ -1253,6 +1271,16 @@ def _listval(ip, args, kw):
             return c['seq']
         return tuple(c['items'])
     return v
+
+
+@builtin(_api.setseq)
+def _setseq(ip, args, kw):
+    """the members of a set as a sequence (insertion order); kind = kind of that sequence"""
+    c = ip.st.cell(args[0])
+    kind = args[1]
+    if 'elems' in c:
+        return c['elems']
+    return lift(tuple(c['items']), kind)
 
 
 @builtin(_api.unfold)
